@@ -202,6 +202,10 @@ func buildReq(x *Ctx, pr pairReq) *breq {
 		}
 		q.msg = &hagallpb.CustomMessage{Type: hagallpb.MsgType_MSG_TYPE_CUSTOM_MESSAGE, Timestamp: tsp, Body: []byte("t-" + pr.Who), ParticipantIds: []uint32{x.J[other].ParticipantID, x.J["c"].ParticipantID}}
 		q.relayType = 17
+	case "unsub":
+		q.rid = c.NextReqID()
+		q.msg = &hagallpb.EntityComponentTypeUnsubscribeRequest{Type: hagallpb.MsgType_MSG_TYPE_ENTITY_COMPONENT_TYPE_UNSUBSCRIBE_REQUEST, Timestamp: tsp, RequestId: q.rid, EntityComponentTypeId: tid}
+		q.accept = okType(37)
 	case "leave":
 		// client close
 	case "join":
@@ -254,12 +258,22 @@ func finalView(x *Ctx, n string, reqs []*breq) *s1.View {
 	return v
 }
 
-func mkPairBlock(reqs ...pairReq) func() *Block {
+func mkPairBlock(reqs ...pairReq) func() *Block { return mkPairBlockBase(baseB1, reqs...) }
+
+// baseB1four: B1 with d also a member (joined last), so that a leaver can
+// have two members behind it in join order.
+func baseB1four(x *Ctx) {
+	baseB1(x)
+	x.join("d", x.J["a"].SessionID)
+	x.Vars["four"] = true
+}
+
+func mkPairBlockBase(base func(*Ctx), reqs ...pairReq) func() *Block {
 	return func() *Block {
 		var built []*breq
 		return &Block{
 			Cfg:   world.Config{Modules: []string{"vikja", "odal"}},
-			Setup: baseB1,
+			Setup: base,
 			Fire: func(x *Ctx) {
 				tick := false
 				for _, pr := range reqs {
@@ -284,7 +298,17 @@ func mkPairBlock(reqs ...pairReq) func() *Block {
 }
 
 // pairOracles: the schedule-quantified clauses of C01, C02 and C03.
+func hasKind(reqs []*breq, k string) bool {
+	for _, q := range reqs {
+		if q.Kind == k {
+			return true
+		}
+	}
+	return false
+}
+
 func pairOracles(x *Ctx, reqs []*breq) {
+	x.Vars["reqs"] = reqs
 	// let coalesced updates flush: a pending update is a request in flight
 	for i := 0; i < 2; i++ {
 		x.W.Tick(x.W.Cfg.FrameDuration)
@@ -300,7 +324,12 @@ func pairOracles(x *Ctx, reqs []*breq) {
 		}
 	}
 	members := []string{}
-	for _, n := range []string{"a", "b", "c"} {
+	base := []string{"a", "b", "c"}
+	four := x.Vars["four"] != nil
+	if four {
+		base = append(base, "d")
+	}
+	for _, n := range base {
 		if !left[n] {
 			members = append(members, n)
 		}
@@ -336,7 +365,7 @@ func pairOracles(x *Ctx, reqs []*breq) {
 					cnt++
 				}
 			}
-			throughout := !left[n] && !joined[n] && n != "d"
+			throughout := !left[n] && !joined[n] && (n != "d" || four)
 			switch {
 			case n == q.Who && cnt > 0:
 				x.fail("relay", q.Kind+":echoed-to-sender", "%s's %s was relayed back to %s itself", q.Who, q.Kind, n)
@@ -346,6 +375,32 @@ func pairOracles(x *Ctx, reqs []*breq) {
 				x.fail("relay", q.Kind+":not-relayed", "%s's accepted %s never reached %s, a member throughout", q.Who, q.Kind, n)
 			case !accepted[q] && cnt > 0:
 				x.fail("relay", q.Kind+":refused-but-relayed", "%s's refused %s was relayed to %s", q.Who, q.Kind, n)
+			}
+		}
+	}
+	// C12 under concurrency: of two adds of the same (type, entity) at most one succeeds
+	var adds []*breq
+	for _, q := range reqs {
+		if q.Kind == "cadd" && accepted[q] {
+			adds = append(adds, q)
+		}
+	}
+	if len(adds) > 1 {
+		x.fail("id", "component-added-twice", "two concurrent adds of the same (type, entity) component were both answered with success (%s and %s)", adds[0].Who, adds[1].Who)
+	}
+	// C13 under concurrency: no update notification after the answer to an unsubscribe
+	for _, u := range reqs {
+		if u.Kind != "unsub" {
+			continue
+		}
+		after := false
+		for _, r := range x.C[u.Who].All() {
+			if r.Type == 37 && requestID(r.Msg) == u.rid {
+				after = true
+				continue
+			}
+			if after && r.Type == 31 {
+				x.fail("relay", "cupd:update-after-unsubscribe", "%s received a component update notification after its unsubscribe had been answered", u.Who)
 			}
 		}
 	}
@@ -392,7 +447,7 @@ func pairOracles(x *Ctx, reqs []*breq) {
 		v := finalView(x, n, reqs)
 		delete(v.PIDs, pj.ParticipantID) // the probe's own join broadcast
 		var types map[uint32]bool
-		if n == "c" {
+		if n == "c" && !hasKind(reqs, "unsub") {
 			types = map[uint32]bool{tid: true} // c is subscribed to T since before any component existed
 		} else {
 			types = map[uint32]bool{}
@@ -456,7 +511,7 @@ func stateFirstView(x *Ctx, n string, reqs []*breq) *s1.View {
 func relayRequired(x *Ctx, q *breq, n string) bool {
 	switch q.Kind {
 	case "cadd", "cupd", "cdel":
-		return n == "c"
+		return n == "c" && !hasKind(x.Vars["reqs"].([]*breq), "unsub")
 	case "customto":
 		return true
 	}
@@ -487,6 +542,7 @@ func pairName(reqs ...pairReq) string {
 }
 
 var pairList [][]pairReq
+var fourList []string
 
 func init() {
 	aKinds := []string{"eadd", "edel", "pose", "cupd", "cdel", "action", "custom", "customto"}
@@ -498,6 +554,7 @@ func init() {
 		pairList = append(pairList, []pairReq{{"a", ak}, {"d", "join"}})
 	}
 	pairList = append(pairList, []pairReq{{"b", "leave"}, {"d", "join"}}, []pairReq{{"b", "cadd"}, {"d", "join"}}, []pairReq{{"b", "asset"}, {"d", "join"}})
+	pairList = append(pairList, []pairReq{{"a", "cadd"}, {"b", "cadd"}}, []pairReq{{"a", "cupd"}, {"c", "unsub"}}, []pairReq{{"a", "cdel"}, {"c", "unsub"}})
 	// triples
 	pairList = append(pairList,
 		[]pairReq{{"a", "eadd"}, {"b", "edel"}, {"d", "join"}},
@@ -506,6 +563,13 @@ func init() {
 	)
 	for _, p := range pairList {
 		registerBlock(pairName(p...), mkPairBlock(p...))
+	}
+	// four members: a relays while b (who has two members behind it in join order) leaves
+	for _, ak := range []string{"custom", "eadd", "edel", "action"} {
+		p := []pairReq{{"a", ak}, {"b", "leave"}}
+		name := "four-" + pairName(p...)
+		registerBlock(name, mkPairBlockBase(baseB1four, p...))
+		fourList = append(fourList, name)
 	}
 	_ = check.Job{}
 }
@@ -522,6 +586,11 @@ func pairJobs(bound2, bound3, budget int, filter func([]pairReq) bool) []check.J
 			b = bound3
 		}
 		jobs = append(jobs, s2job(pairName(p...), b, budget))
+	}
+	if filter == nil {
+		for _, n := range fourList {
+			jobs = append(jobs, s2job(n, bound2, budget))
+		}
 	}
 	return jobs
 }
@@ -546,5 +615,96 @@ func init() {
 			}
 		}
 		return false
+	})
+}
+
+func init() {
+	// C06 under concurrency: the last member, owning a non-persistent entity,
+	// leaves while a newcomer joins: whoever ends up in the session must hold
+	// the view a later newcomer is handed
+	registerBlock("c06-lastleave-entity-vs-join", func() *Block {
+		return &Block{
+			Setup: func(x *Ctx) {
+				x.conn("a", "b")
+				x.join("a", "")
+				a := x.C["a"]
+				a.SendMsg(&hagallpb.EntityAddRequest{Type: hagallpb.MsgType_MSG_TYPE_ENTITY_ADD_REQUEST, Timestamp: x.W.NextTS(), RequestId: a.NextReqID()})
+				a.SendMsg(&hagallpb.EntityAddRequest{Type: hagallpb.MsgType_MSG_TYPE_ENTITY_ADD_REQUEST, Timestamp: x.W.NextTS(), RequestId: a.NextReqID(), Persist: true})
+				x.W.Run()
+			},
+			Fire: func(x *Ctx) {
+				m, rid := joinReq(x.W, x.C["b"], x.J["a"].SessionID)
+				x.Vars["rid"] = rid
+				x.C["b"].SendMsg(m)
+				x.C["a"].Close()
+			},
+			Check: func(x *Ctx) {
+				ji := parseJoin(x.C["b"].All(), x.Vars["rid"].(uint32))
+				if !ji.OK {
+					return
+				}
+				x.J["b"] = ji
+				x.conn("probe")
+				pj := join(x.W, x.C["probe"], ji.SessionID)
+				if !pj.OK {
+					x.fail("view", "joiner-in-dead-session", "b was told it joined %s but a probe cannot join it: %v", ji.SessionID, pj.Code)
+					return
+				}
+				pv, bv := s1.NewView(), s1.NewView()
+				for _, r := range x.C["probe"].All() {
+					pv.Apply(r, nil)
+				}
+				for _, r := range x.C["b"].All() {
+					bv.Apply(r, nil)
+				}
+				delete(pv.PIDs, pj.ParticipantID)
+				delete(bv.PIDs, pj.ParticipantID)
+				mods := s1.Mods{}
+				if have, want := bv.State(nil, mods), pv.State(nil, mods); have != want {
+					class := "never-told"
+					sv := stateFirstView(x, "b", nil)
+					delete(sv.PIDs, pj.ParticipantID)
+					if sv.State(nil, mods) == want {
+						class = "state-overtaken-by-relay"
+					}
+					x.fail("view", "departure-vs-join:joiner-view-differs:"+class, "a (owner of one non-persistent and one persistent entity) left while b joined; b's view differs from what a newcomer is handed:\n   view : %s\n   probe: %s", have, want)
+				}
+			},
+			Final: finalInvariants,
+		}
+	})
+	add := func(id string, f func(tier string) []check.Job) {
+		check.WrapPlanner(id, func(tier string, jobs []check.Job) []check.Job { return append(jobs, f(tier)...) })
+	}
+	bnd := func(tier string) (int, int) {
+		if tier == "thorough" {
+			return 2, 1500
+		}
+		return 1, 200
+	}
+	add("C05", func(tier string) []check.Job {
+		b, bud := bnd(tier)
+		return []check.Job{s2job("c10-join-join", b+1, bud), s2job("c10-eadd-eadd", b+1, bud)}
+	})
+	add("C06", func(tier string) []check.Job {
+		b, bud := bnd(tier)
+		jobs := []check.Job{s2job("c06-lastleave-entity-vs-join", b+1, bud)}
+		for _, p := range pairList {
+			for _, r := range p {
+				if r.Kind == "leave" || r.Kind == "switch" {
+					jobs = append(jobs, s2job(pairName(p...), b, bud))
+					break
+				}
+			}
+		}
+		return jobs
+	})
+	add("C12", func(tier string) []check.Job {
+		b, bud := bnd(tier)
+		return []check.Job{s2job("c10-tadd-same", b+1, bud), s2job("c10-tadd-other", b+1, bud), s2job(pairName(pairReq{"a", "cadd"}, pairReq{"b", "cadd"}), b+1, bud)}
+	})
+	add("C13", func(tier string) []check.Job {
+		b, bud := bnd(tier)
+		return []check.Job{s2job(pairName(pairReq{"a", "cupd"}, pairReq{"c", "unsub"}), b+1, bud), s2job(pairName(pairReq{"a", "cdel"}, pairReq{"c", "unsub"}), b+1, bud)}
 	})
 }
